@@ -154,6 +154,21 @@ impl PartialEq for Value_ {
                 Value_::BuiltInFunction(other_kind, _, _),
             ) => self_kind == other_kind,
             (Value_::String(s1), Value_::String(s2)) => s1 == s2,
+            (Value_::Float(f1), Value_::Float(f2)) => f1 == f2,
+            (
+                Value_::Dict {
+                    items: self_items,
+                    value_type: _,
+                },
+                Value_::Dict {
+                    items: other_items,
+                    value_type: _,
+                },
+            ) => {
+                // As with lists, the value type is not part of the
+                // value: Dict[] == Dict[] however they were built.
+                self_items == other_items
+            }
             (
                 Value_::List {
                     items: self_items,
@@ -186,19 +201,23 @@ impl PartialEq for Value_ {
             }
             (
                 Value_::EnumVariant {
-                    runtime_type: self_runtime_type,
+                    type_name: self_type_name,
                     variant_idx: self_variant_idx,
                     payload: self_payload,
                     ..
                 },
                 Value_::EnumVariant {
-                    runtime_type: other_runtime_type,
+                    type_name: other_type_name,
                     variant_idx: other_variant_idx,
                     payload: other_payload,
                     ..
                 },
             ) => {
-                self_runtime_type == other_runtime_type
+                // Compare the enum's name rather than the runtime
+                // type: the runtime type also records type
+                // arguments inferred when the value was built, so
+                // `Some([])` values built differently would differ.
+                self_type_name == other_type_name
                     && self_variant_idx == other_variant_idx
                     && self_payload == other_payload
             }
@@ -217,15 +236,15 @@ impl PartialEq for Value_ {
             (
                 Value_::Struct {
                     fields: self_fields,
-                    runtime_type: self_runtime_type,
+                    type_name: self_type_name,
                     ..
                 },
                 Value_::Struct {
                     fields: other_fields,
-                    runtime_type: other_runtime_type,
+                    type_name: other_type_name,
                     ..
                 },
-            ) => self_runtime_type == other_runtime_type && self_fields == other_fields,
+            ) => self_type_name == other_type_name && self_fields == other_fields,
             _ => false,
         }
     }
